@@ -186,6 +186,7 @@ Inductive action :=
 Inductive entry :=
 | LProc (t : Q) (ph : phase) (mt : N) (ro : bool) (pid : nat) (a : action)
 | LEdge (t : Q) (c : clk) (rising : bool) (ra ra2 rb : val)    (* onClock, after the clocked nodes advanced *)
+| LPhase (t : Q) (ph : phase)                                   (* onNewPhase *)
 | LMicro (t : Q) (ph : phase) (mt : N)                          (* onAfterMicroTick *)
 | LCommit (t : Q) (ra ra2 rb c : val)                           (* onCommitState *)
 | LReeval                                                       (* reevaluate() (not printed) *)
@@ -429,22 +430,26 @@ Fixpoint run_stack (cfg : config) (fuel : nat) (stk : list frame) (s : state) : 
     end
   end.
 
-(* resuming one entry of the ready queue *)
-Definition exec_task (cfg : config) (fuel : nat) (t : task) (s : state) : state :=
+(* resuming one entry of the ready queue: what happens before the coroutine's own code runs, and the call
+   stack it then runs with *)
+Definition task_head (t : task) (s : state) : list frame * state :=
   match t with
-  | TStart pid => run_stack cfg fuel [FStart pid] s
+  | TStart pid => ([FStart pid], s)
   | TWake pid w g =>
     let s1 := log_wake pid w g s in
     if p_fiber (get_proc pid s1)
-    then enqueue (THop pid 1) s1     (* the step coroutine finishes -> its wrapper is enqueued *)
-    else run_stack cfg fuel [FRun pid] s1
-  | THop pid (S n) =>                (* the wrapper resumes the fiber thread: next awaitCoroutine or end of body *)
+    then ([], enqueue (THop pid 1) s1)     (* the step coroutine finishes -> its wrapper is enqueued *)
+    else ([FRun pid], s1)
+  | THop pid (S n) =>                      (* the wrapper resumes the fiber thread: next awaitCoroutine or end of body *)
     match p_script (get_proc pid s) with
-    | [] => run_stack cfg fuel [FRun pid] s
-    | _ => enqueue (THop pid n) s
+    | [] => ([FRun pid], s)
+    | _ => ([], enqueue (THop pid n) s)
     end
-  | THop pid O => run_stack cfg fuel [FRun pid] s
+  | THop pid O => ([FRun pid], s)
   end.
+
+Definition exec_task (cfg : config) (fuel : nat) (t : task) (s : state) : state :=
+  let (stk, s1) := task_head t s in run_stack cfg fuel stk s1.
 
 (* SimulationCoroutineHandler::run *)
 Fixpoint run_ready (cfg : config) (fuel : nat) (s : state) : state :=
@@ -492,36 +497,47 @@ Definition pop_event (s : state) : option (event * state) :=
     end
   end.
 
+Definition awaiter_event (e : event) (a : awaiter) : event :=
+  mk_event SimProcResume (e_time e) (e_mt e) (aw_phase a) (e_pin e) (e_rising e)
+           (aw_pid a) (aw_id a) (aw_why a) (mk_ghost (aw_t0 a) (aw_id a) [] []).
+Definition value_change_event (e : event) : event :=
+  mk_event ClockValueChange (e_time e) (e_mt e) (e_phase e) (e_pin e) (e_rising e) (e_pid e) (e_id e) (e_why e) (e_g e).
+Definition next_trigger_event (cfg : config) (e : event) : event :=
+  mk_event ClockPinTrigger (tadd (e_time e) (clk_half cfg (e_pin e))) 0 (e_phase e) (e_pin e) (negb (e_rising e))
+           (e_pid e) (e_id e) (e_why e) (e_g e).
+
 Definition handle_trigger (cfg : config) (e : event) (s : state) : state :=
   let k := e_pin e in
   let s0 := add_log (LTrigger (e_time e) k (e_rising e)) s in
   (* trigger type RISING, no reset: the domain activates on the rising edge *)
   let s1 :=
     if e_rising e then
-      let s' := fold_left (fun st a =>
-                   push_event (mk_event SimProcResume (e_time e) (e_mt e) (aw_phase a) k (e_rising e)
-                                        (aw_pid a) (aw_id a) (aw_why a) (mk_ghost (aw_t0 a) (aw_id a) [] [])) st)
-                 (get_await k s0) s0 in
-      set_await k [] s'
+      set_await k [] (fold_left (fun st a => push_event (awaiter_event e a) st) (get_await k s0) s0)
     else s0 in
   (* the value change itself, after the processes that were just scheduled for BEFORE / DURING *)
-  let s2 := push_event (mk_event ClockValueChange (e_time e) (e_mt e) (e_phase e) k (e_rising e)
-                                 (e_pid e) (e_id e) (e_why e) (e_g e)) s1 in
+  let s2 := push_event (value_change_event e) s1 in
   (* re-issue the next clock flank *)
-  push_event (mk_event ClockPinTrigger (tadd (e_time e) (clk_half cfg k)) 0 (e_phase e) k (negb (e_rising e))
-                       (e_pid e) (e_id e) (e_why e) (e_g e)) s2.
+  push_event (next_trigger_event cfg e) s2.
 
 Definition handle_value_change (cfg : config) (e : event) (s : state) : state :=
   let k := e_pin e in
   let s1 := if e_rising e then set_circ (circ_advance (c_two cfg) k (s_circ s)) s else s in
   add_log (LEdge (s_now s1) k (e_rising e) (r_a (s_circ s1)) (r_a2 (s_circ s1)) (r_b (s_circ s1))) s1.
 
-Definition handle_event (cfg : config) (fuel : nat) (e : event) (s : state) : state :=
+(* the part of the switch in advanceMicroTick that is not "run the ready queue" *)
+Definition event_head (cfg : config) (e : event) (s : state) : state :=
   match e_type e with
   | ClockPinTrigger => handle_trigger cfg e s
   | ClockValueChange => handle_value_change cfg e s
   | ResetValueChange => s                                   (* no resets in this circuit *)
-  | SimProcResume => resume_now cfg fuel (TWake (e_pid e) (e_why e) (e_g e)) s
+  | SimProcResume => enqueue (TWake (e_pid e) (e_why e) (e_g e)) s      (* m_coroutineHandler.readyToResume(handle) *)
+  end.
+
+Definition handle_event (cfg : config) (fuel : nat) (e : event) (s : state) : state :=
+  let s1 := event_head cfg e s in
+  match e_type e with
+  | SimProcResume => run_ready cfg fuel s1                  (* m_coroutineHandler.run() *)
+  | _ => s1
   end.
 
 Definition top_matches (time_only : bool) (with_mt : bool) (s : state) : bool :=
@@ -550,17 +566,26 @@ Fixpoint advance_micro_tick (cfg : config) (fuel : nat) (s : state) : state :=
 Definition watch_changed (c : circ) (w : watch) : bool :=
   negb (forallb (fun p => val_eqb (fst p) (snd p)) (combine (w_refs w) (map (fun x => circ_read x c) (w_mask w)))).
 
+Definition watch_event (s : state) (w : watch) : event :=
+  let mt := if phase_eqb (s_phase s) AFTER then N.succ (s_mt s) else 0%N in
+  let cur := map (fun x => circ_read x (s_circ s)) (w_mask w) in
+  resume_event (s_now s) mt AFTER (w_pid w) (w_id w) (WkChange (w_mask w)) (mk_ghost (w_t0 w) (w_id w) (w_refs w) cur).
+
 Definition check_watches (s : state) : state :=
   let fired := filter (watch_changed (s_circ s)) (s_watches s) in
   let kept := filter (fun w => negb (watch_changed (s_circ s) w)) (s_watches s) in
-  let mt := if phase_eqb (s_phase s) AFTER then N.succ (s_mt s) else 0%N in
   let s1 := fold_left (fun st w =>
-              let cur := map (fun x => circ_read x (s_circ s)) (w_mask w) in
-              push_event (resume_event (s_now s) mt AFTER (w_pid w) (w_id w) (WkChange (w_mask w))
-                                       (mk_ghost (w_t0 w) (w_id w) (w_refs w) cur))
-                (add_log (LFire (w_pid w) (w_refs w) cur) st))
+              push_event (watch_event s w)
+                (add_log (LFire (w_pid w) (w_refs w) (map (fun x => circ_read x (s_circ s)) (w_mask w))) st))
             fired s in
   set_watches kept s1.
+
+(* what follows advanceMicroTick() inside the inner while loop of handleCurrentTimeStep *)
+Definition micro_end (s : state) : state :=
+  let s2 := reevaluate s in
+  let s3 := check_watches s2 in
+  let s4 := add_log (LMicro (s_now s3) (s_phase s3) (s_mt s3)) s3 in
+  set_mt (N.succ (s_mt s4)) s4.
 
 (* the inner while loop of handleCurrentTimeStep for one timing phase *)
 Fixpoint phase_loop (cfg : config) (fuel : nat) (s : state) : state :=
@@ -570,25 +595,34 @@ Fixpoint phase_loop (cfg : config) (fuel : nat) (s : state) : state :=
     | O => set_oof s
     | S n =>
       let s1 := advance_micro_tick cfg (S n) s in
-      let s2 := reevaluate s1 in
-      let s3 := check_watches s2 in
-      let s4 := add_log (LMicro (s_now s3) (s_phase s3) (s_mt s3)) s3 in
-      phase_loop cfg n (set_mt (N.succ (s_mt s4)) s4)
+      if halted s1 then s1 else phase_loop cfg n (micro_end s1)
     end
   else s.
 
+Definition phase_begin (ph : phase) (s : state) : state :=
+  let s1 := set_mt 0 (set_phase ph s) in add_log (LPhase (s_now s1) ph) s1.
+
 Definition phase_pass (cfg : config) (fuel : nat) (ph : phase) (s : state) : state :=
-  phase_loop cfg fuel (set_mt 0 (set_phase ph s)).
+  if halted s then s else phase_loop cfg fuel (phase_begin ph s).
 
 (* ReferenceSimulator::commitState *)
+Definition commit_begin (s : state) : state := set_commitq [] (set_readonly true s).
+Definition commit_end (s : state) : state :=
+  let c := s_circ s in
+  set_readonly false (add_log (LCommit (s_now s) (r_a c) (r_a2 c) (r_b c) (c_out c)) s).
+
+Fixpoint commit_resume (cfg : config) (fuel : nat) (waiting : list (nat * Q)) (s : state) : state :=
+  match waiting with
+  | [] => s
+  | p :: r =>
+    if halted s then s else
+    commit_resume cfg fuel r (resume_now cfg fuel (TWake (fst p) WkStable (ghost0 (snd p))) s)
+  end.
+
 Definition commit_state (cfg : config) (fuel : nat) (s : state) : state :=
-  let s1 := set_readonly true s in
-  let waiting := s_commitq s1 in
-  let s2 := set_commitq [] s1 in
-  let s3 := fold_left (fun st p => resume_now cfg fuel (TWake (fst p) WkStable (ghost0 (snd p))) st) waiting s2 in
-  let c := s_circ s3 in
-  let s4 := add_log (LCommit (s_now s3) (r_a c) (r_a2 c) (r_b c) (c_out c)) s3 in
-  set_readonly false s4.
+  let waiting := s_commitq s in
+  let s3 := commit_resume cfg fuel waiting (commit_begin s) in
+  if halted s3 then s3 else commit_end s3.
 
 (* ReferenceSimulator::handleCurrentTimeStep *)
 Fixpoint time_step_loop (cfg : config) (fuel : nat) (s : state) : state :=
@@ -637,31 +671,44 @@ Definition trigger_event (t : Q) (k : clk) : event :=
   (* initial clock level for TriggerEvent::RISING is high, so the first event is the falling flank *)
   mk_event ClockPinTrigger t 0 DURING k false 0 0 WkStable (ghost0 0).
 
-Definition init_state (cfg : config) (procs : list script) (fiber : bool) (tb : list bool) : state :=
+Definition init_state (procs : list script) (fiber : bool) (tb : list bool) : state :=
   mk_state 0 AFTER 0 [] [] [] [] [] 0 false []
     (map (fun sc => mk_proc sc fiber false []) procs) [] circ0 [] false tb 0 false.
 
-Definition start_all (cfg : config) (fuel : nat) (fiber : bool) (n : nat) (s : state) : state :=
-  fold_left (fun st pid =>
-    if fiber then
-      (* SimulationFiber::start(): the thread runs the body up to its first awaitCoroutine (or to its end) *)
-      let st1 := log_proc pid AStart st in
-      let (fs, st2) := fiber_continue pid st1 in
-      run_ready cfg fuel (run_stack cfg fuel fs st2)
-    else resume_now cfg fuel (TStart pid) st) (seq 0 n) s.
-
-Definition power_on (cfg : config) (fuel : nat) (procs : list script) (fiber : bool) (tb : list bool) : state :=
-  let s0 := init_state cfg procs fiber tb in
+(* powerOn up to (and including) the first reevaluate(): clock pins armed, nothing started yet *)
+Definition boot (cfg : config) (procs : list script) (fiber : bool) (tb : list bool) : state :=
+  let s0 := init_state procs fiber tb in
   let s1 := push_event (trigger_event (tadd 0 (clk_half cfg CA)) CA) s0 in
   let s2 := if c_two cfg then push_event (trigger_event (tadd 0 (clk_half cfg CB)) CB) s1 else s1 in
-  let s3 := reevaluate s2 in
-  let s4 := start_all cfg fuel fiber (length procs) s3 in
+  reevaluate s2.
+
+(* SimulationFiber::start(): the thread runs the body up to its first awaitCoroutine (or to its end) *)
+Definition fiber_start (pid : nat) (s : state) : list frame * state :=
+  fiber_continue pid (log_proc pid AStart s).
+
+Fixpoint start_all (cfg : config) (fuel : nat) (fiber : bool) (pids : list nat) (s : state) : state :=
+  match pids with
+  | [] => s
+  | pid :: r =>
+    if halted s then s else
+    start_all cfg fuel fiber r
+      (if fiber then let (fs, s1) := fiber_start pid s in run_ready cfg fuel (run_stack cfg fuel fs s1)
+       else resume_now cfg fuel (TStart pid) s)
+  end.
+
+Definition power_on (cfg : config) (fuel : nat) (procs : list script) (fiber : bool) (tb : list bool) : state :=
+  let s3 := boot cfg procs fiber tb in
+  let s4 := start_all cfg fuel fiber (seq 0 (length procs)) s3 in
+  if halted s4 then s4 else
   let s5 := reevaluate s4 in          (* if (m_stateNeedsReevaluating) reevaluate(): idempotent when not needed *)
-  if halted s5 then s5 else handle_time_step cfg fuel s5.
+  handle_time_step cfg fuel s5.
 
 Record result := mk_result { res_log : list entry; res_ties : N; res_oof : bool }.
 
-Definition simulate (cfg : config) (procs : list script) (fiber : bool) (until : Q) (tb : list bool) (fuel : nat) : result :=
+Definition run (cfg : config) (procs : list script) (fiber : bool) (until : Q) (tb : list bool) (fuel : nat) : state :=
   let s := power_on cfg fuel procs fiber tb in
-  let s' := advance_loop cfg fuel (tadd (s_now s) until) s in
+  advance_loop cfg fuel (tadd (s_now s) until) s.
+
+Definition simulate (cfg : config) (procs : list script) (fiber : bool) (until : Q) (tb : list bool) (fuel : nat) : result :=
+  let s' := run cfg procs fiber until tb fuel in
   mk_result (rev (s_log s')) (s_ties s') (s_oof s').
